@@ -107,6 +107,14 @@ def guard_c02(sess, kind, d):
         if (rf is not None and rf.fut.value is a) or a is getattr(sess, "rename_from0", None):
             ok = True  # (c): stored by RNFR from a get_paths result (I3); RNTO reads it before deleting the slot
         out.append((f"{d['op']}:path-comes-from-get_paths-or-a-listing-below-it", bool(ok)))
+        if getattr(sess, "phase", 1) == 2:
+            # a transfer task runs after the 150 reply, while later commands (CWD, ...) may already have changed the
+            # session: the location it operates on is the one addressed when the command arrived - the one the
+            # existence and permission checks were made for - not a path re-resolved later
+            src = a
+            while hasattr(src, "listed_from") and not hasattr(src, "resolved_for"):
+                src = src.listed_from
+            out.append((f"{d['op']}:path-was-resolved-when-the-command-arrived", getattr(src, "resolved_phase", 1) == 1))
     return out
 
 
